@@ -34,6 +34,43 @@ type Emitter struct {
 	StripLiterals bool
 }
 
+// booleanPrecedence ranks the boolean operators the way the grammar nests them (oC_OrExpression, oC_XorExpression,
+// oC_AndExpression, oC_NotExpression). Zero is returned for every other expression.
+func booleanPrecedence(expression cypher.Expression) int {
+	switch expression.(type) {
+	case *cypher.Disjunction:
+		return 1
+	case *cypher.ExclusiveDisjunction:
+		return 2
+	case *cypher.Conjunction:
+		return 3
+	case *cypher.Negation:
+		return 4
+	}
+
+	return 0
+}
+
+// writeBooleanOperand writes one operand of a boolean operator. An operand that is itself a boolean operator binding
+// less tightly than its parent is parenthesized; without this the output would parse back with a different grouping,
+// e.g. and(a, xor(b, c)) as "a and b xor c".
+func (s Emitter) writeBooleanOperand(output io.Writer, parentPrecedence int, operand cypher.Expression) error {
+	if precedence := booleanPrecedence(operand); precedence != 0 && precedence < parentPrecedence {
+		if _, err := io.WriteString(output, "("); err != nil {
+			return err
+		}
+
+		if err := s.WriteExpression(output, operand); err != nil {
+			return err
+		}
+
+		_, err := io.WriteString(output, ")")
+		return err
+	}
+
+	return s.WriteExpression(output, operand)
+}
+
 func NewCypherEmitter(stripLiterals bool) Emitter {
 	return Emitter{
 		StripLiterals: stripLiterals,
@@ -480,16 +517,8 @@ func (s Emitter) WriteExpression(output io.Writer, expression cypher.Expression)
 			return err
 		}
 
-		switch innerExpression := typedExpression.Expression.(type) {
-		case *cypher.Parenthetical:
-			if err := s.WriteExpression(output, innerExpression); err != nil {
-				return err
-			}
-
-		default:
-			if err := s.WriteExpression(output, innerExpression); err != nil {
-				return err
-			}
+		if err := s.writeBooleanOperand(output, booleanPrecedence(typedExpression), typedExpression.Expression); err != nil {
+			return err
 		}
 
 	case *cypher.IDInCollection:
@@ -554,7 +583,7 @@ func (s Emitter) WriteExpression(output io.Writer, expression cypher.Expression)
 				}
 			}
 
-			if err := s.WriteExpression(output, joinedExpression); err != nil {
+			if err := s.writeBooleanOperand(output, booleanPrecedence(typedExpression), joinedExpression); err != nil {
 				return err
 			}
 		}
@@ -567,7 +596,7 @@ func (s Emitter) WriteExpression(output io.Writer, expression cypher.Expression)
 				}
 			}
 
-			if err := s.WriteExpression(output, joinedExpression); err != nil {
+			if err := s.writeBooleanOperand(output, booleanPrecedence(typedExpression), joinedExpression); err != nil {
 				return err
 			}
 		}
@@ -580,7 +609,7 @@ func (s Emitter) WriteExpression(output io.Writer, expression cypher.Expression)
 				}
 			}
 
-			if err := s.WriteExpression(output, joinedExpression); err != nil {
+			if err := s.writeBooleanOperand(output, booleanPrecedence(typedExpression), joinedExpression); err != nil {
 				return err
 			}
 		}
